@@ -627,6 +627,38 @@ Proof.
   - apply O; unfold held; apply in_or_app; left; apply in_or_app; left; assumption.
 Qed.
 
+
+(* in every reachable state, for two objects of one address: the later one is a ghost (created while the address was
+   occupied: registered under no address, holds nothing, has handled nothing), or the earlier one is registered under no
+   address and everything it has handled or still holds is numbered below everything the later one has handled or holds *)
+Theorem same_address_objects_ordered ls s os u1 u2 a1 a2 :
+  krun roles kinit ls = Some (s, os) ->
+  get s u1 = Some a1 -> get s u2 = Some a2 -> a_tok a1 = a_tok a2 -> (u1 < u2)%nat ->
+  (unregA s u2 /\ serials (seq a2) = [] /\ trace u2 ls os = []) \/
+  (unregA s u1 /\ forall x y, In x (trace u1 ls os ++ serials (seq a1)) -> In y (trace u2 ls os ++ serials (seq a2)) -> (x < y)%nat).
+Proof.
+  intros Hr G1 G2 Tk Lt.
+  assert (Hi : INV s (fun v => trace v ls os)) by (eapply INV_run; [apply INV_init|exact Hr|reflexivity]).
+  destruct Hi as (_ & _ & _ & _ & _ & Pp).
+  assert (Hh : forall u a, get s u = Some a -> held (fun v => trace v ls os ++ infl s v) u a = trace u ls os ++ serials (seq a)).
+  { intros u a G. unfold held, infl. rewrite G. rewrite <- app_assoc, <- serials_app. reflexivity. }
+  destruct (Pp u1 u2 a1 a2 Lt G1 G2 Tk) as [[U E]|[U O]].
+  - left. split; [exact U|]. rewrite (Hh u2 a2 G2) in E. apply app_eq_nil in E. destruct E as [E1 E2]. auto.
+  - right. split; [exact U|]. rewrite (Hh u1 a1 G1), (Hh u2 a2 G2) in O. exact O.
+Qed.
+
+(* the object registered under an address is the newest one that was ever reachable under it: every object of that address
+   with a larger uid is a ghost *)
+Theorem registered_is_newest_but_ghosts ls s os t u u' a' :
+  krun roles kinit ls = Some (s, os) -> lookup t (registry s) = Some u ->
+  get s u' = Some a' -> a_tok a' = t -> (u < u')%nat ->
+  unregA s u' /\ serials (seq a') = [] /\ trace u' ls os = [].
+Proof.
+  intros Hr Hl G' Tk Lt. destruct (RI_reachable roles ls kinit s os RI_init Hr t u Hl) as (a & G & Ta).
+  assert (Tq : a_tok a = a_tok a') by congruence.
+  destruct (same_address_objects_ordered ls s os u u' a a' Hr G G' Tq Lt) as [X|[U _]]; [exact X|]. exfalso. exact (U t Hl).
+Qed.
+
 End RU.
 
 Theorem handled_order_across_reuse : forall roles ls s os u1 u2 a1 a2,
